@@ -45,7 +45,7 @@ POOL = [
     R('T2', ['match: contains("BBB") and amount > 50', 'subcategory: SubT2', 'tags: T2, {field.kind}'],
       lambda t: 'BBB' in t['description'].upper() and t['amount'] > 50, subcategory='SubT2', tags=('T2',),
       dyn=lambda t: [t['field'].get('kind', '')] if t.get('field') and 'kind' in t['field'] else [], key=(50, 1, 1, 3)),
-    R('Bad', ['match: field.missing == "x"', 'category: CatBad', 'subcategory: SubBad', 'tags: bad'], None, 'CatBad', 'SubBad', tags=('bad',), key=(50, 0, 1, 1)),
+    R('Bad', ['match: field.missing == "x"', 'category: CatBad', 'subcategory: SubBad', 'tags: bad'], None, 'CatBad', 'SubBad', tags=('bad',), key=(50, 0, 1, 0)),
     R('AB', ['match: contains("AAA") or contains("BBB")', 'category: CatAB', 'tags: ab'],
       lambda t: 'AAA' in t['description'].upper() or 'BBB' in t['description'].upper(), 'CatAB', '', tags=('ab',), key=(50, 2, 0, 6)),
     R('Let', ['let: x = amount * 2', 'match: x > 150', 'category: CatLet', 'subcategory: SubLet'], lambda t: t['amount'] * 2 > 150, 'CatLet', 'SubLet', key=(50, 0, 0, 0)),
@@ -63,6 +63,19 @@ POOL = [
       lambda t: t['amount'] > 5 and 'ZZZ' in t['description'].upper(), 'CatShadow', 'SubShadow', key=(50, 1, 0, 3)),
     # a double-quoted pattern containing an apostrophe: its whole text counts for the pattern-length key
     R('Apos', ['match: contains("AAA\'S AUTH")', 'category: CatApos', 'subcategory: SubApos'], has("AAA'S AUTH"), 'CatApos', 'SubApos', key=(50, 1, 0, 10)),
+    # the ranking key is read from the expression, not from its text: a keyword inside a pattern ("PAYDAY" holds "day") is no constraint kind,
+    # a blank between a function name and its parenthesis does not hide the pattern condition, two apostrophes in two patterns delimit nothing
+    R('Payday', ['match: contains("PAYDAY")', 'category: CatPay', 'subcategory: SubPay'], has('PAYDAY'), 'CatPay', 'SubPay', key=(50, 1, 0, 6)),
+    R('AaaMon', ['match: contains("AAA MON")', 'category: CatMon', 'subcategory: SubMon'], has('AAA MON'), 'CatMon', 'SubMon', key=(50, 1, 0, 7)),
+    R('Spaced', ['match: contains ("AAA") and contains ("STORE")', 'category: CatSp', 'subcategory: SubSp'],
+      lambda t: 'AAA' in t['description'].upper() and 'STORE' in t['description'].upper(), 'CatSp', 'SubSp', key=(50, 2, 0, 8)),
+    R('Apos2', ['match: contains("AAA\'S") or contains("HOLD\'S")', 'category: CatApos2', 'subcategory: SubApos2'],
+      lambda t: "AAA'S" in t['description'].upper() or "HOLD'S" in t['description'].upper(), 'CatApos2', 'SubApos2', key=(50, 2, 0, 11)),
+    R('Upper', ['match: CONTAINS("AAA") and Contains("STORE")', 'category: CatUp', 'subcategory: SubUp'],
+      lambda t: 'AAA' in t['description'].upper() and 'STORE' in t['description'].upper(), 'CatUp', 'SubUp', key=(50, 2, 0, 8)),
+    R('FieldK', ['match: contains("AAA") and Field.kind == "Wire"', 'category: CatFk', 'subcategory: SubFk'],
+      lambda t: 'AAA' in t['description'].upper() and bool(t.get('field')) and str(t['field'].get('kind', '')).lower() == 'wire', 'CatFk', 'SubFk', key=(50, 1, 1, 3)),
+    R('LongPat', ['match: fuzzy("AAA STORE", 0.9)', 'category: CatLp', 'subcategory: SubLp'], lambda t: 'AAA STORE' in t['description'].upper(), 'CatLp', 'SubLp', key=(50, 1, 0, 9)),
 ]
 BY_NAME = {r.name: r for r in POOL}
 
@@ -74,6 +87,7 @@ TXNS = [
     {'description': 'BBB', 'amount': 20.0, 'date': date(2025, 3, 30), 'field': {'kind': ' '}, 'source': 'Visa'},
     {'description': 'AAA STORE', 'amount': 600.0, 'date': date(2025, 3, 7), 'field': {'kind': 'x'}, 'source': 'Amex'},
     {'description': "AAA'S AUTH HOLD", 'amount': 0.0, 'date': date(2025, 3, 8), 'field': {'kind': 'Hold'}, 'source': 'Visa'},
+    {'description': 'PAYDAY AAA MONTHLY', 'amount': 30.0, 'date': date(2025, 5, 8), 'field': {}, 'source': 'Visa'},
 ]
 
 
@@ -327,6 +341,8 @@ def run(prop):
             names = [x.name for x in POOL]
             if O.tier == 'quick':
                 names = [n for n in names if n not in ('Zero', 'T3')] if prop == 'C01' else names
+                if prop != 'C09':
+                    names = [n for n in names if n not in ('Payday', 'AaaMon', 'Spaced', 'Apos2', 'Upper', 'FieldK', 'LongPat')]       # rules that differ in ranking only
             for n in range(1, maxlen + 1):
                 for combo in itertools.permutations(names, n):
                     for ti in range(len(TXNS)):
